@@ -522,7 +522,31 @@ where
         if rep.samples.len() < 3 && rep.executed % 4999 == 2500 {
             rep.samples.push(json!({"h": row["h"], "e": e, "r": out.ret}));
         }
-        if out.pan || out.ret != exp {
+        // for an item stored on both sides either stored representation may be reported (C18)
+        let both_free = |v: &Value| -> Value {
+            let mut v = v.clone();
+            if let Some(items) = v.get_mut(0).and_then(|x| x.as_array_mut()) {
+                for it in items.iter_mut() {
+                    let both = it.get("k").map(|k| k == "B").unwrap_or(false)
+                        || (it.get("k").is_none() && it.get("l").map(|l| !l.is_array() || l.as_array().map(|a| a.len() == 1).unwrap_or(false)).unwrap_or(false)
+                            && it.get("r").map(|r| !r.is_array() || r.as_array().map(|a| a.len() == 1).unwrap_or(false)).unwrap_or(false)
+                            && it.get("v").is_none());
+                    if both {
+                        if let Some(p) = it.get_mut("p") {
+                            p["h"] = json!("*");
+                        }
+                        for side in ["l", "r"] {
+                            if let Some(x) = it.get_mut(side).and_then(|x| x.get_mut(0)).and_then(|x| x.get_mut("p")) {
+                                x["h"] = json!("*");
+                            }
+                        }
+                    }
+                }
+            }
+            v
+        };
+        let relaxed_equal = matches!(op, "Union" | "UnionMut" | "Inter" | "InterMut") && both_free(&out.ret) == both_free(&exp);
+        if out.pan || (out.ret != exp && !relaxed_equal) {
             rep.mismatch_count += 1;
             let slot = format!("{}/{}", if out.pan { "pan" } else { "ret" }, op);
             if !crate::replay::nonzero_host_pub(&row["h"]) {
